@@ -1,7 +1,18 @@
 //! Engine K: Kani harnesses over the real d-engine-core crate (see /verif/DESIGN.md §3.1).
-#![allow(unused_imports, dead_code, clippy::all)]
+#![allow(unused_imports, dead_code, clippy::all, static_mut_refs)]
 pub mod env;
 pub mod stubs;
 
 #[cfg(kani)]
+pub mod h_basic;
+#[cfg(kani)]
+pub mod h_election;
+#[cfg(kani)]
+pub mod h_repl;
+
+#[cfg(kani)]
 mod probe;
+
+// native replay of solver counterexamples (filled in by /verif/check; see tools/vlib.py)
+#[cfg(all(kani, test))]
+mod playback_gen;
